@@ -177,6 +177,16 @@ def oracle_C02(an, check_c09=False):
                 okk = (ty == "write" and e[1] == "w") or (ty == "read" and e[1] == "r")
                 if e[2] != cmd or not okk:
                     v.append("line %r: selected command %d type %s but variable callback %s of command %d ran" % (t, cmd, ty, e[1], e[2]))
+        # a selected command whose requested form is available must actually be served
+        ccap = an.scn.buf if an.scn.uns >= 0 else an.scn.buf // 2
+        c = an.scn.cmds[cmd]
+        complete = bool(codes)
+        if complete and accepts(an.scn, fl, cmd, ty):
+            if ty == "run" and not any(e[0] == "H" and e[1] == "x" and e[2] == cmd for e in evs):
+                v.append("line %r selects command %d (%s) for RUN, which is available, but its run handler was not invoked (answer %r)" % (t, cmd, c.name, codes[0]))
+            if ty == "write" and "w" in c.h and not vars_accessible(c, 2) and len(cl["args"]) <= ccap - 1 and \
+                    not any(e[0] == "H" and e[1] == "w" and e[2] == cmd for e in evs):
+                v.append("line %r selects command %d (%s) for WRITE, which is available, but its write handler was not invoked (answer %r)" % (t, cmd, c.name, codes[0]))
         if check_c09:
             form_ok = accepts(an.scn, fl, cmd, ty)
             if not form_ok:
@@ -596,6 +606,23 @@ def oracle_C10(an):
                     want("command list then OK", nk in ("raw", "code"))
                 else:
                     want("ERROR at once", nxt[0] == ("code", False))
+        # re-invocation (after NEXT / DATA_NEXT) is on a freshly formatted buffer: with unchanged variables
+        # the text equals the one given to the first invocation of the request
+        first = None
+        for k, x in enumerate(it):
+            if x[0] in ("lf", "idle", "code"):
+                first = None
+            elif x[0] == "H" and x[1] in ("r", "t"):
+                li = x[5]
+                if first is None:
+                    first = x
+                else:
+                    quiet = not any(an.lines[j].m for j in range(first[5], li + 1)) and not any(
+                        ("/p:" in an.op_of(j) or an.op_of(j).startswith("poke")) for j in range(first[5], li + 1))
+                    quiet = quiet and not any("/p:" in o for o in an.scn.ops if o.startswith(("hq", "vq")))
+                    if quiet and x[1] == first[1] and x[2] == first[2] and x[4] != first[4]:
+                        v.append("%s machine: %s handler of command %d re-invoked on buffer %r, but the freshly formatted text is %r" % (f, x[1], x[2], x[4], first[4]))
+                        break
         # variable callback failure aborts before the handler
         for k, x in enumerate(it):
             if x[0] == "V" and x[2] != 0 and k + 1 < n:
@@ -628,6 +655,8 @@ def obs_C11(an):
 
 
 def oracle_C11(an):
+    if an.uns_hold:
+        return None     # an event handler answering HOLD abandons the command machine's unit (DESIGN.md 2.3)
     v = []
     NL = (b"\n", b"\r\n")
     open_u = None
@@ -692,7 +721,7 @@ def obs_C12(an):
         if an.is_svc(li) and refusal_only(an, li):
             p, l = an.lines[li - 1], an.lines[li]
             out.append((l.ret, l.q == p.q, l.b == p.b, not l.m))
-    return out
+    return sorted(set(out))
 
 
 def oracle_C12(an):
@@ -817,7 +846,11 @@ def obs_C14(an):
     for li in range(1, len(an.lines)):
         if an.lines[li - 1].q[1] == 2:
             held_reads += sum(1 for e in an.ev[li] if e[0] == "R" and e[1] is not None)
-    return out, [l.q[1] for l in an.lines], [e for e in seq(an, {"N"}) if e[1] == "x"], held_reads
+    h = []
+    for l in an.lines:
+        if not h or h[-1] != l.q[1]:
+            h.append(l.q[1])
+    return out, h, [e for e in seq(an, {"N"}) if e[1] == "x"], held_reads
 
 
 def oracle_C14(an):
